@@ -409,6 +409,10 @@ func c03Main(flavor string) {
 		}
 		big := 0
 		for i := 0; i < *fN; i++ {
+			if expired() {
+				hist["stopped at the deadline"] = 1
+				break
+			}
 			n := 1 + r.intn(5)
 			mode := []string{"seq", "seq", "pipe", "pipe", "conc"}[r.intn(5)]
 			if flavor == "c01" { // pipelines and concurrent connections only, nodes answering at different speeds
